@@ -51,7 +51,9 @@ Inductive op :=
 | OpToNd (ds : list dspec) (xs : list val)
 | OpFromNd (ds : list dspec) (v : list Q)
 | OpBounds (ds : list dspec) (fixed : option val)
-| OpJson (d : domain).
+| OpJson (d : domain)
+| OpSampleSize (d : domain) (rs : list raw)
+| OpRandomConfig (ds : list dspec) (fixed : option (nat * val)) (rs : list raw).
 
 Definition ov (o : option val) : obs := match o with Some v => OV v | None => ONone end.
 (* make_hyperparameter_ranges = the model's [space_ranges] (the function the end-to-end theorems are
@@ -75,6 +77,11 @@ Definition run_op (sl sr : scaling) (o : op) : obs :=
       match ranges_of sl sr ds with
       | Some hs => match space_bounds eps hs fx with Some b => OBnd b | None => ONone end
       | None => ONone end
+  | OpSampleSize d rs =>
+      match dom_sample_size sl sr d rs with
+      | Some (SOne v) => OV v | Some (SMany l) => OVals l | None => ONone end
+  | OpRandomConfig ds fx rs =>
+      match random_config sl sr ds fx rs with Some c => OVals c | None => ONone end
   | OpJson d =>
       match cs_json_roundtrip ebase [(0%%Z, EDom d); (1%%Z, EConst (VI 3))] with
       | Some [(_, EDom d'); (_, EConst (VI 3))] => ODom d'
@@ -402,6 +409,49 @@ class FakeRandomState:
         assert 0 <= self.i < n
         self.calls.append(("choice", self.i))
         return self._fill(self.i, size, np.int64)
+
+
+class QueueRandomState:
+    """duck-typed random_state whose primitives return prescribed raw draws one after another"""
+
+    def __init__(self, queue):
+        self.queue, self.results = list(queue), []
+
+    def _pop(self, tag):
+        t, v = self.queue.pop(0)
+        assert t == tag, "raw draw of the wrong kind"
+        return v
+
+    def uniform(self, low=0.0, high=1.0, size=None):
+        v = low + (high - low) * self._pop("u")
+        self.results.append(float(v))
+        return np.full(size, v, dtype=float) if size is not None else v
+
+    def randint(self, low, high=None, size=None):
+        v = self._pop("i")
+        assert low <= v < high
+        self.results.append(None)
+        return np.full(size, v, dtype=np.int64) if size is not None else v
+
+    def choice(self, n, size=None):
+        v = self._pop("i")
+        assert 0 <= v < n
+        self.results.append(None)
+        return np.full(size, v, dtype=np.int64) if size is not None else v
+
+
+def raw_for(rng, spec):
+    """a legal raw draw for one sample of this domain: (tag, value) or None if the sampler draws nothing"""
+    k = spec["kind"]
+    if k in ("randint", "qrandint"):
+        return ("i", rng.randint(spec["lower"], spec["upper"]))
+    if k in ("choice", "ordinal_equal"):
+        return ("i", rng.randrange(len(spec["categories"])))
+    if k in ("finrange", "logfinrange"):
+        return ("i", rng.randrange(spec["size"]))
+    if k in ("ordinal_nn", "ordinal_nnlog") and len(spec["categories"]) == 1:
+        return None
+    return ("u", rng.random())
 
 
 # ----------------------------------------------------------------------------------------------
@@ -797,6 +847,21 @@ def single_domain_cases(ctx, C, spec, rng, cs, make_hpr, only=None, forced_activ
             extreme = tag == "u" and r in (0.0, 1.0 - 2.0 ** -53)
             count("sample", [tag, r], nontrivial=not (kind == "uniform"))
             check_sample(ctx, spec, dom, ok, x, dict(raw=[tag, r]), extreme=extreme, size=1)
+        # sample(size=2) against the model's dom_sample_size (the same raw draw twice)
+        rw = raw_for(rng, spec)
+        if rw is not None:
+            frs = FakeRandomState(u=rw[1] if rw[0] == "u" else None, i=rw[1] if rw[0] == "i" else None)
+            ok, xs = call(lambda: dom.sample(size=2, random_state=frs))
+            tb, pool = Tables(), Pool()
+            add_tables(tb, spec, "domain", raws=[c[1] for c in frs.calls if c[0] == "uniform"])
+            rterm = "(RawU %s)" % q(rw[1]) if rw[0] == "u" else "(RawI %s)" % zlit(rw[1])
+            try:
+                obs = ("(OVals %s)" % pool.vals(list(xs))) if ok and isinstance(xs, list) else ("ONone" if not ok else obs_val(pool, xs))
+            except TypeError:
+                obs = "ONone"
+            C.add(tb, scale, "(OpSampleSize %s [%s; %s])" % (coq_domain(spec, pool), rterm, rterm), obs,
+                  dict(op="sample_size", kind=kind, spec=spec, raw=list(rw), impl=repr(xs), only="sample"))
+            count("sample_size", list(rw), nontrivial=True)
     # ---------------- sample: real numpy RandomState, many seeds (checker only) ---------------------
     if want("sample_real"):
         seed = rng.randrange(2 ** 31)
@@ -1324,8 +1389,45 @@ def _space_cases(ctx, C, rng, cs, make_hpr, spaces):
             okd, back = call(lambda: hpr.from_ndarray(enc))
             if not okd or any(not same_value(back[k], cfg[k], isinstance(cfg[k], float) and S["space"][k]["kind"] in (
                     "uniform", "loguniform", "reverseloguniform")) for k in keys):
-                ctx.violation("property", "space round trip of %r gives %r" % (cfg, back), case=case,
-                              signature=dict(op="round_trip", defect="round_trip_differs", space=True))
+                sig = dict(op="round_trip", defect="round_trip_differs", space=True)
+                if okd:
+                    badk = [k for k in keys if not same_value(back[k], cfg[k], isinstance(cfg[k], float) and S["space"][k]["kind"] in (
+                        "uniform", "loguniform", "reverseloguniform"))]
+                    bs = S["space"][badk[0]]
+                    sig.update(domain=type(built[badk[0]]).__name__, constructor=bs["kind"],
+                               range_width_ge_2pow52=bool(all(
+                                   "lower" in S["space"][k] and isinstance(S["space"][k]["lower"], int)
+                                   and S["space"][k]["upper"] - S["space"][k]["lower"] + 1 >= 2 ** 52 for k in badk)))
+                ctx.violation("property", "space round trip of %r gives %r" % (cfg, back), case=case, signature=sig)
+        # random_config with prescribed raw draws against the model's random_config
+        okcs, csamp = call(lambda: hpr.config_space_for_sampling)
+        if okcs:
+            skeys = list(csamp.keys())
+            sspecs = [S["active"].get(k, S["space"][k]) for k in skeys]
+            raws = [raw_for(rng, sp_) for sp_ in sspecs]
+            qrs = QueueRandomState([r_ for r_ in raws if r_ is not None])
+            okq, qcfg = call(lambda: hpr.random_config(qrs))
+            tb = Tables()
+            ures = iter(qrs.results)
+            for sp_, r_ in zip(sspecs, raws):
+                if r_ is not None:
+                    res_ = next(ures, None)
+                    add_tables(tb, sp_, "domain", raws=[res_] if res_ is not None else [])
+            pool = Pool()
+            dsp = dspecs_term(pool, [S["space"][k] for k in skeys], [S["active"].get(k) for k in skeys])
+            fx = "None"
+            if value_last is not None:
+                fx = "(Some (%s, %s))" % (natlit(skeys.index(S["name_last_pos"])), pool.val(value_last))
+            rterms = lst([("(RawU %s)" % q(r_[1]) if r_[0] == "u" else "(RawI %s)" % zlit(r_[1])) if r_ is not None else "(RawU 0)"
+                          for r_ in raws])
+            try:
+                obs = ("(OVals %s)" % pool.vals([qcfg[k] for k in skeys])) if okq else "ONone"
+            except TypeError:
+                obs = "ONone"
+            C.add(tb, scale, "(OpRandomConfig %s %s %s)" % (dsp, fx, rterms), obs,
+                  dict(op="random_config_model", space=S, raws=[list(r_) if r_ else None for r_ in raws], impl=repr(qcfg)))
+            ctx.count(("random_config_model", S), nontrivial=True)
+            ctx.h("op", "random_config_model")
         # random_configs(rs, k), k in {0, 1, 2, 5}
         targets = {}
         for k in keys:
